@@ -14,10 +14,11 @@ import vlib
 
 TAG = "x12"
 CFG = {
-    "quick":    dict(mc=["MC_Connection_q.cfg"], gen="Gen_Connection.cfg", all_variants=False,
-                     nhist=14, steps=70, nlong=1, longsteps=300, wrap=140, resample=12),
-    "thorough": dict(mc=["MC_Connection.cfg", "MC_Connection_t.cfg"], gen="Gen_Connection_t.cfg", all_variants=True,
-                     nhist=120, steps=120, nlong=6, longsteps=700, wrap=300, resample=40),
+    "quick":    dict(mc=["MC_Connection_q.cfg", "MC_Connection_q2.cfg", "MC_Connection_q3.cfg"],
+                     gen=["Gen_Connection.cfg", "Gen_Connection_b.cfg"], all_variants=False,
+                     nhist=14, steps=70, nlong=1, longsteps=300, wrap=140, ncycle=6, cycles=14, resample=12),
+    "thorough": dict(mc=["MC_Connection.cfg", "MC_Connection_t.cfg"], gen=["Gen_Connection_t.cfg"], all_variants=True,
+                     nhist=120, steps=120, nlong=6, longsteps=700, wrap=300, ncycle=40, cycles=30, resample=40),
 }
 ENV = {"ASAN_OPTIONS": vlib.ASAN_ENV + ":symbolize=0"}
 CHUNK = 3000
@@ -47,6 +48,12 @@ def signature(mm, beh):
         cls = ":" + str(arg.get("dir"))
         if arg.get("dir") == "AB":
             cls += ",act=%s" % arg.get("act")
+        elif arg.get("chain"):
+            cls += ",chain"
+    elif a in ("dispatch", "sync") and arg.get("chain"):
+        cls = ":chain"
+    elif a in ("send", "request") and arg.get("end") == "B":
+        cls = ":end=B"
     elif a == "init":
         cls = ":open=%s" % init.get("open")
     elif a == "stray":
@@ -85,12 +92,28 @@ def run_chunks(exe, behs):
 # ---------------------------------------------------------------------------
 # binding B inputs: call sequences only, no expected values
 # ---------------------------------------------------------------------------
+def cb_arg(rng, st, maxcalls, plain=False):
+    """Script of the waiting callers / of A's handler for a step in which A receives: what a caller returns, whether it
+    issues a follow-up request from inside the callback (tokens cw, cw+1, ..), what A's handler returns."""
+    arg = {"cret": 0, "chain": 0, "cw": 0, "hret": 0}
+    if plain:
+        return arg
+    arg["cret"] = rng.choice([0, 0, 0, -1, -5, 3])
+    arg["hret"] = rng.choice([0, 0, -1, -3])
+    if st["tok"] < 900 and rng.random() < 0.25:
+        arg["chain"] = 1
+        arg["cw"] = st["tok"] + 1
+        st["tok"] += maxcalls
+    return arg
+
+
 def gen_history(rng, steps, tr, width, via, how, await_bias=1):
     """One schedule.  The counters are rough guesses of what is in flight; the driver skips steps that are not
     possible in the real state (ret = "skipped"; dropped from the trace)."""
     beh = [{"a": "init", "arg": {"tr": tr, "max": width, "via": via, "open": how}}]
     nab = nba = 0
-    w = 0
+    st = {"tok": 0}    # caller tokens of A handed out so far
+    nb = 0             # requests of B
     cur = 0            # waiter of the id reserved for the next message (guess)
     holding = False
     live_h = set()
@@ -104,19 +127,21 @@ def gen_history(rng, steps, tr, width, via, how, await_bias=1):
             ops += ["dba"] * 5 + (["hold"] if not stream else []) + (["sync"] * 2 if can_sync else [])
         if holding:
             ops += ["dispatch"] * 4
-        if w:
+        if st["tok"]:
             ops += ["stray"]
         if not stream and (nab or nba):
             ops += ["drop"]
         if live_h:
             ops += ["dreply"] * 2
+        if nb < 40:
+            ops += ["breq", "bplain"]
         ops += ["late"] if rng.random() < 0.3 else []
         op = rng.choice(ops)
-        if op == "await" and w < 500:
-            w += 1
-            beh.append({"a": "await", "arg": {"w": w}})
+        if op == "await" and st["tok"] < 900:
+            st["tok"] += 1
+            beh.append({"a": "await", "arg": {"w": st["tok"]}})
             if not cur:
-                cur = w
+                cur = st["tok"]
         elif op in ("send", "plain"):
             if op == "plain" and cur:
                 continue
@@ -126,6 +151,14 @@ def gen_history(rng, steps, tr, width, via, how, await_bias=1):
             if not holding or stream:
                 nab += 1
             cur = 0
+        elif op == "breq":
+            nb += 1
+            beh.append({"a": "request", "arg": {"end": "B", "w": 1000 + nb,
+                                               "data": [nb % 256] + [rng.randrange(256) for _ in range(rng.choice([0, 1, 5, 70]))]}})
+            nba += 1
+        elif op == "bplain":
+            beh.append({"a": "send", "arg": {"end": "B", "data": [rng.randrange(256) for _ in range(rng.choice([1, 2, 9]))]}})
+            nba += 1
         elif op == "dab":
             k = 1 if stream else rng.randrange(1, nab + 1)
             act = rng.choice(["none", "reply", "reply", "reply", "reply2", "defer"])
@@ -141,26 +174,39 @@ def gen_history(rng, steps, tr, width, via, how, await_bias=1):
             if act != "defer":
                 nba += 1
         elif op == "dba":
-            beh.append({"a": "deliver", "arg": {"dir": "BA", "k": 1 if stream else rng.randrange(1, nba + 1)}})
+            arg = {"dir": "BA", "k": 1 if stream else rng.randrange(1, nba + 1)}
+            arg.update(cb_arg(rng, st, 1))
+            beh.append({"a": "deliver", "arg": arg})
             nba -= 1
+            nab += 1 if arg["chain"] or nb else 0
         elif op == "hold":
             beh.append({"a": "hold", "arg": {"k": rng.randrange(1, nba + 1)}})
             nba -= 1
             holding = True
         elif op == "dispatch":
-            beh.append({"a": "dispatch", "arg": {"x": 0}})
+            arg = cb_arg(rng, st, 1)
+            beh.append({"a": "dispatch", "arg": arg})
             holding = False
+            nab += 1 if arg["chain"] or nb else 0
         elif op == "sync":
             m = rng.randrange(1, min(nba, 3) + 1)
             ks = list(range(1, m + 1)) if stream else rng.sample(range(1, nba + 1), m)
-            beh.append({"a": "sync", "arg": {"ks": ks}})
+            arg = {"ks": ks}
+            arg.update(cb_arg(rng, st, m + 3))
+            beh.append({"a": "sync", "arg": arg})
             nba -= m
+            nab += m if arg["chain"] else 0
             if rng.random() < 0.3:
-                beh.append({"a": "sync", "arg": {"ks": []}})
+                arg = {"ks": []}
+                arg.update(cb_arg(rng, st, 4))
+                beh.append({"a": "sync", "arg": arg})
             for _ in range(m):          # whatever sync left at the socket is dispatched before anything else arrives
-                beh.append({"a": "deliver", "arg": {"dir": "BA", "k": 0}})
+                arg = {"dir": "BA", "k": 0}
+                arg.update(cb_arg(rng, st, 1))
+                beh.append({"a": "deliver", "arg": arg})
+                nab += 1 if arg["chain"] or nb else 0
         elif op == "stray":
-            beh.append({"a": "stray", "arg": {"of": rng.choice([0] + [rng.randrange(1, w + 1)] * 3),
+            beh.append({"a": "stray", "arg": {"of": rng.choice([0] + [rng.randrange(1, st["tok"] + 1)] * 3),
                                              "data": [rng.randrange(256) for _ in range(rng.choice([0, 1, 4]))]}})
             nba += 1
         elif op == "drop":
@@ -205,8 +251,75 @@ def gen_wrap_history(rng, cycles, tr, via, how):
             nab -= 1
             nba += 1
         while nba and (stream or rng.random() < 0.8):
-            beh.append({"a": "deliver", "arg": {"dir": "BA", "k": 1 if stream else rng.randrange(1, nba + 1)}})
+            arg = {"dir": "BA", "k": 1 if stream else rng.randrange(1, nba + 1)}
+            arg.update(cb_arg(rng, None, 1, plain=True))
+            beh.append({"a": "deliver", "arg": arg})
             nba -= 1
+    beh.append({"a": "close", "arg": {"x": 0}})
+    return beh
+
+
+def gen_cycle_history(rng, cycles, tr, via, how, width):
+    """Request / answer / sync cycles with few requests outstanding (so that ids are used again at once), callers that
+    return any code or chain a follow-up request, and traffic from B (requests, plain messages) crossing A's requests:
+    what reaches A while it syncs and is no reply must still get to A's handler afterwards."""
+    beh = [{"a": "init", "arg": {"tr": tr, "max": width, "via": via, "open": how}}]
+    stream = tr == "stream"
+    st = {"tok": 0}
+    nb = 0
+    nab = nba = 0
+    for _ in range(cycles):
+        for _ in range(rng.choice([1, 1, 1, 2])):
+            st["tok"] += 1
+            beh.append({"a": "await", "arg": {"w": st["tok"]}})
+            beh.append({"a": "send", "arg": {"data": [st["tok"] % 256, 7]}})
+            nab += 1
+        cross = rng.random() < 0.4
+        if cross and rng.random() < 0.5:          # B's message is on its way before A's request is answered
+            nb += 1
+            beh.append(rng.choice([{"a": "request", "arg": {"end": "B", "w": 1000 + nb, "data": [nb % 256, 5]}},
+                                   {"a": "send", "arg": {"end": "B", "data": [6, nb % 256]}}]))
+            nba += 1
+            cross = False
+        while nab:
+            beh.append({"a": "deliver", "arg": {"dir": "AB", "k": 1 if stream else rng.randrange(1, nab + 1),
+                                               "act": rng.choice(["reply", "reply", "none"]),
+                                               "data": [st["tok"] % 256, 9], "hret": rng.choice([0, -3]), "h": 0}})
+            nab -= 1
+            nba += 1
+        if cross:                                 # ... or after it
+            nb += 1
+            beh.append(rng.choice([{"a": "request", "arg": {"end": "B", "w": 1000 + nb, "data": [nb % 256, 5]}},
+                                   {"a": "send", "arg": {"end": "B", "data": [6, nb % 256]}}]))
+            nba += 1
+        if rng.random() < 0.75:
+            ks = list(range(1, nba + 1))
+            if not stream:
+                rng.shuffle(ks)
+            arg = {"ks": ks}
+            arg.update(cb_arg(rng, st, nba + 3))
+            beh.append({"a": "sync", "arg": arg})
+            if arg["chain"]:
+                nab += nba
+            for _ in range(nba + 1):
+                arg = {"dir": "BA", "k": 0}
+                arg.update(cb_arg(rng, st, 1))
+                beh.append({"a": "deliver", "arg": arg})
+                nab += 1          # (an answer to B's request / a follow-up request may have gone out)
+            nba = 0
+        else:
+            while nba:
+                arg = {"dir": "BA", "k": 1 if stream else rng.randrange(1, nba + 1)}
+                arg.update(cb_arg(rng, st, 1))
+                beh.append({"a": "deliver", "arg": arg})
+                nba -= 1
+                nab += 1
+        nab = min(nab, 3)
+        while nab:                                # answers to B's requests, follow-up requests of A
+            beh.append({"a": "deliver", "arg": {"dir": "AB", "k": 1, "act": "reply", "data": [st["tok"] % 256, 8],
+                                               "hret": 0, "h": 0}})
+            nab -= 1
+            nba += 1
     beh.append({"a": "close", "arg": {"x": 0}})
     return beh
 
@@ -218,6 +331,10 @@ def gen_histories(ck, cfg):
         tr = "dgram" if i % 2 else "stream"
         via, how = rng.choice(S_VARIANTS if tr == "stream" else D_VARIANTS)
         behs.append(gen_history(rng, cfg["steps"], tr, rng.choice([1, 1, 2, 2, 3, 4, 5, 8, 9]), via, how))
+    for i in range(cfg["ncycle"]):
+        tr = "dgram" if i % 2 else "stream"
+        via, how = [("remote", "open"), ("remote", "assign"), ("conn", "open"), ("remote", "assign")][i % 4]
+        behs.append(gen_cycle_history(rng, cfg["cycles"], tr, via, how, rng.choice([1, 2, 2, 4])))
     for i in range(cfg["nlong"]):
         # one byte ids: more than 127 requests, so that the ids wrap around
         tr = "dgram" if i % 2 else "stream"
@@ -239,44 +356,70 @@ def nontrivial(recs):
     return calls > 0
 
 
-def validate(ck, events, what, behs):
-    ok, matched, tres = vlib.validate_trace("Trace_Connection", events, tag="Trace_Connection_" + what)
-    ck.cov["transitions"] += tres.generated
-    if not ok:
-        ok2, matched2, tres2 = vlib.validate_trace("Trace_Connection", events, tag="Trace_Connection_" + what)
-        if not ok2 and matched2 == matched:
-            ev = events[matched] if matched < len(events) else None
-            beh = behs[ev["b"]] if ev and ev.get("b") is not None else [{"arg": {}}]
-            if ev is None:
-                sig = "x12:trace:short"
-            elif ev["a"] in ("Crash", "Hang", "Garbled", "Missing"):
-                prev = beh[ev["i"]] if ev.get("i") is not None and ev["i"] < len(beh) else {"a": "?"}
-                sig = "trace:" + signature({"step": prev, "why": ev["a"] if ev["a"] != "Missing" else "Crash"}, beh)
-            else:
-                sig = "trace:" + signature({"step": ev, "why": "rejected"}, beh)
-            ck.violation(sig, {"binding": "B(trace validation)", "x12": True, "matched_prefix": matched,
-                               "rejected_event": ev, "previous_events": events[max(matched - 3, 0):matched],
-                               "behaviour": beh if len(beh) < 200 else beh[:(ev or {}).get("i", 0) + 1],
-                               "tlc": (tres2.violation or "")})
+def validate(ck, events, what, behs, rounds=4):
+    """TLC decides whether the recorded executions are behaviours of Connection.  A rejected execution is reported (the
+    rejection is confirmed by a second run), taken out, and the rest is validated again so that one failure does not
+    hide another.  Returns (number of executions accepted, events matched, transitions)."""
+    events = list(events)
+    total = len(events)
+    rejected = 0
+    gen = 0
+    for rnd in range(rounds):
+        tag = "Trace_Connection_%s_%d" % (what, rnd)
+        ok, matched, tres = vlib.validate_trace("Trace_Connection", events, tag=tag)
+        gen += tres.generated
+        if ok:
+            break
+        ok2, matched2, tres2 = vlib.validate_trace("Trace_Connection", events, tag=tag)
+        if ok2 or matched2 != matched:
+            if ok2:
+                break
+            continue
+        ev = events[matched] if matched < len(events) else None
+        if ev is None:
+            ck.violation("x12:trace:short", {"binding": "B(trace validation)", "x12": True, "matched_prefix": matched})
+            break
+        beh = behs[ev["b"]]
+        if ev["a"] in ("Crash", "Hang", "Garbled", "Missing"):
+            prev = beh[ev["i"]] if ev.get("i") is not None and ev["i"] < len(beh) else {"a": "?"}
+            sig = "trace:" + signature({"step": prev, "why": ev["a"] if ev["a"] != "Missing" else "Crash"}, beh)
         else:
-            ok, matched = ok2, matched2
-    return ok, matched
+            sig = "trace:" + signature({"step": ev, "why": "rejected"}, beh)
+        ck.violation(sig, {"binding": "B(trace validation)", "x12": True, "matched_prefix": matched,
+                           "rejected_event": ev, "previous_events": events[max(matched - 3, 0):matched],
+                           "behaviour": beh if len(beh) < 200 else beh[:ev.get("i", 0) + 1],
+                           "tlc": (tres2.violation or "")})
+        rejected += 1
+        events = [e for e in events if e["b"] != ev["b"]]
+        if not events:
+            break
+    return rejected, total - len(events) if rejected else 0, gen
 
 
 def run_part(ck, tier):
     cfg = CFG[tier]
     exe = vlib.build_driver("connection", ["connection.c"], libs=("mptio", "mptcore"))
+    notes = ck.notes.setdefault("x12_conn", {})
 
-    # 1. model + behaviour export (independent TLC runs side by side)
-    pool = concurrent.futures.ThreadPoolExecutor(max_workers=4)
-    fmc = [pool.submit(vlib.tlc, "MC_Connection", c, workers=max(vlib.NCPU // 2, 2), tag="MC_Connection_" + c)
+    # 1. exhaustive model checks and behaviour export run side by side with everything else
+    pool = concurrent.futures.ThreadPoolExecutor(max_workers=8)
+    fmc = [pool.submit(vlib.tlc, "MC_Connection", c, workers=max(vlib.NCPU // 4, 2), tag="MC_Connection_" + c)
            for c in cfg["mc"]]
-    gen = vlib.tlc("Gen_Connection", cfg["gen"], workers=4, tag="Gen_Connection_" + tier)
-    if gen.error or gen.violation:
-        raise vlib.MachineryError("behaviour export failed: %s %s" % (gen.error, gen.violation))
-    base = vlib.parse_behaviours(gen.out)
+    fgen = [pool.submit(vlib.tlc, "Gen_Connection", g, workers=3, tag="Gen_Connection_" + g) for g in cfg["gen"]]
 
-    # 2. binding A
+    # 2. binding B: seeded histories recorded from the real code, validated by TLC
+    hist = gen_histories(ck, cfg)
+    hrecs, _ = vlib.run_driver(exe, vlib.to_script(hist), env=ENV)
+    ev_h = drop_skipped(vlib.merge_trace(hist, hrecs))
+    fval = pool.submit(validate, ck, ev_h, "seeded", hist)
+
+    # 3. binding A: every exported behaviour replayed
+    base = []
+    for g, f in zip(cfg["gen"], fgen):
+        gen = f.result()
+        if gen.error or gen.violation:
+            raise vlib.MachineryError("behaviour export %s failed: %s %s" % (g, gen.error, gen.violation))
+        base += vlib.parse_behaviours(gen.out)
     behs = []
     for i, b in enumerate(base):
         behs += variants(b, cfg["all_variants"], i)
@@ -295,7 +438,6 @@ def run_part(ck, tier):
         if nontrivial(by.get(b, [])):
             nt.add(json.dumps([(s["a"], s.get("arg")) for s in beh], sort_keys=True))
     ck.cov["evaluations"] += done
-    notes = ck.notes.setdefault("x12_conn", {})
     notes["behaviours_generated"] = len(base)
     notes["behaviours_replayed"] = done
     notes["replay_mismatches"] = len(mms)
@@ -303,43 +445,42 @@ def run_part(ck, tier):
     if done < len(behs):
         notes["replay_cut_short"] = "more than %d crashes; %d of %d behaviours replayed" % (MAX_FAULTS, done, len(behs))
 
-    # 3. binding B: seeded histories + a sample of the replayed runs (with the ids the code handed out)
-    hist = gen_histories(ck, cfg)
-    hrecs, _ = vlib.run_driver(exe, vlib.to_script(hist), env=ENV)
-    ev_h = drop_skipped(vlib.merge_trace(hist, hrecs))
-    step = max(len(behs[:done]) // cfg["resample"], 1)
-    sample_idx = list(range(0, done, step))
+    # ... and a sample of the replayed runs validated like recorded histories (with the ids the code handed out)
+    bad = set(mm["b"] for mm in mms)
+    step = max(done // cfg["resample"], 1)
+    sample_idx = [i for i in range(0, done, step) if i not in bad]
     sample = [[{"a": s["a"], "arg": s.get("arg")} for s in behs[i]] for i in sample_idx]
     srecs = []
     for j, i in enumerate(sample_idx):
         for r in by.get(i, []):
             srecs.append(dict(r, b=j))
     ev_s = drop_skipped(vlib.merge_trace(sample, srecs))
-    for e in ev_s:
-        e["b"] += len(hist)
-    allb = hist + sample
-    ok, matched = validate(ck, ev_h + ev_s, "all", allb)
+    rej_s, lost_s, gen_s = validate(ck, ev_s, "sample", sample, rounds=2)
+    rej_h, lost_h, gen_h = fval.result()
+    ck.cov["transitions"] += gen_s + gen_h
     hby = vlib.group_records(hrecs)
     ntb = 0
     for b, beh in enumerate(hist):
         if nontrivial(hby.get(b, [])):
             ntb += 1
             nt.add(json.dumps([(s["a"], s.get("arg")) for s in beh], sort_keys=True))
-    if ok:
-        ck.cov["traces_validated_against_impl"] += len(allb)
+    ck.cov["traces_validated_against_impl"] += len(hist) + len(sample) - rej_s - rej_h
     ck.cov["evaluations"] += len(hist)
     ck.cov["distinct_nontrivial"] += len(nt)
     notes["trace_events"] = len(ev_h) + len(ev_s)
-    notes["trace_events_matched"] = matched
     notes["trace_histories"] = {"seeded": len(hist), "replayed_runs": len(sample), "seeded_nontrivial": ntb,
+                                "rejected": rej_s + rej_h,
                                 "calls_skipped_by_driver": sum(1 for r in hrecs if (r.get("obs") or {}).get("ret") == "skipped"),
                                 "max_requests_in_one_history": max([sum(1 for s in b if s["a"] == "await") for b in hist] + [0])}
     notes["rule"] = ("A: one behaviour per transition of the TLC state graph of Connection under the view (transport, id "
                      "width, message being composed, state of every request, the in-flight lists with kind / owner / "
-                     "waiting caller of each message, what A holds, B's handles, counters) replayed into two real "
-                     "connections; B: seeded schedules (id widths 1..9, up to 500 requests, reorder/drop/forged replies/"
-                     "sync/deferred answers) and a sample of the replayed runs validated by TLC with the ids the code "
-                     "handed out.  Non-trivial: at least one waiting caller was handed a reply.")
+                     "waiting caller of each message, what A holds, B's handles and own requests, counters) replayed into "
+                     "two real connections; B: seeded schedules (id widths 1..9, up to 900 requests, reorder/drop/forged "
+                     "replies/sync/deferred answers, callers that return any code or send a follow-up request from inside "
+                     "the callback, requests and plain messages of B crossing A's) and a sample of the replayed runs "
+                     "validated by TLC with the ids the code handed out.  Non-trivial: at least one waiting caller was "
+                     "handed a reply.")
+
     # 4. the exhaustive model checks that ran meanwhile
     for c, f in zip(cfg["mc"], fmc):
         ck.add_tlc(f.result(), "exhaustive " + c)
@@ -348,7 +489,8 @@ def run_part(ck, tier):
         ck.cov["samples"] = ck.cov.get("samples", []) + [vlib.sample_repr(behs[len(behs) // 2])]
     ck.assumptions += ["x12: drv/connection.c projects without judgement (copies what handlers and waiting callers were "
                        "given and what appeared on the wire; plays network and event loop: moves messages between the "
-                       "ends, calls next() on readable descriptors and dispatch() when next() was positive)",
+                       "ends, calls next() on readable descriptors and dispatch() when next() was positive; callers and "
+                       "handlers do what the step scripts: return a code, reply, defer, send a follow-up request)",
                        "x12: the taps of the stream variant use the library's own stream codec (property C02)",
                        "x12: id width of both ends set in struct outdata (_idlen) as the repository's client example does; "
                        "no sender addresses (_smax = 0)"]
